@@ -150,9 +150,11 @@ CLAIMED = {
              "(little- and big-endian files of one capture give the same items), C12_default_resolution / C12_resolution (no option = microseconds; if_tsresol v = 10^-v "
              "resp. 2^-(v-128), in both byte orders): closed under the global context. Time: C12_time_any_resolution, C12_time_pow10, C12_time_coarse over Model/TimeConv.v "
              "(ticks -> offset + ticks / divisor in binary64 -> intround(ts * 1e6), the float operations being Flocq's executable ones): the same instant, a whole number of "
-             "microseconds below 2^51 us, as ticks of ANY two resolutions without if_tsoffset is exported as the same microsecond count; these three depend on the standard "
-             "library's real-number and classical axioms (named in DESIGN.md I.5) through Flocq. NOT covered by a theorem: if_tsoffset and instants that are not whole "
-             "microseconds (model against implementation on any ticks / resolution / offset), dpkt's legacy pcap reader; the check exports the same packets under seven "
+             "microseconds below 2^51 us, as ticks of ANY two resolutions without if_tsoffset is exported as the same microsecond count; C12_time_seconds_and_microseconds (s seconds "
+             "+ u microseconds, a legacy record or if_tsoffset s with sub-second ticks, is s*10^6+u for every s <= 2^32-2) and C12_time_legacy (-l: microsecond and nanosecond "
+             "legacy files and the microsecond pcapng give the same time); these five depend on the standard "
+             "library's real-number and classical axioms (named in DESIGN.md I.5) through Flocq. NOT covered by a theorem: if_tsoffset with ticks of a second or more and instants "
+             "that are not whole microseconds (model against implementation on any ticks / resolution / offset), the byte layout of dpkt's legacy pcap reader; the check exports the same packets under seven "
              "resolutions, an offset, extra blocks, Packet Blocks, both byte orders and four legacy variants, with capture clocks before and after 2038, and requires "
              "byte-identical exports.",
         note="Trusted: Coq kernel; Spec/PcapngSpec.v as a transcription of the pcapng draft; the reader model tied to dpkt_dsb.Reader by correspondence on every generated file "
